@@ -134,6 +134,11 @@ def enabled(obj, model):
     rids, cids = selfdesc.read_ids(obj)
     nr, nc = len(rids), len(cids)
     T = []
+    # the missing-entry model is keyed by RDM id: entries of RDMs the object no longer holds are
+    # dropped (a fresh RDM with a re-used id, e.g. appended after the old one was selected away, is
+    # complete) - harness bookkeeping, found by the thorough tier at depth 4
+    if any(r not in rids for r, _, _ in model['nan']):
+        model = dict(model, nan=frozenset(e for e in model['nan'] if e[0] in rids))
 
     def add(label, fn, sig=None):
         T.append(bfs.Transition(list(label), fn, sig or label[0]))
